@@ -255,9 +255,11 @@ package ch
 
 //@ -- the receive loop of Do: nil is returned only on end-of-stream; data and totals packets go to
 //@ -- decodeBlock, everything else except end-of-stream to handlePacket
-//@ contract (c *Client) Do$5() (err) props(C03,C04,C08)
+//@ contract (c *Client) Do$5() (err) props(C03,C04,C08,C12)
 //@   requires *c != nil && *ctx != nil && c.reader != nil
-//@   modifies all(*c), all(*ctx), all(q.Result), gotException.val, all(q.OnLogs), all(q.OnLog)
+//@ -- (frame, C12: the receiving goroutine writes the reader side only - never the writer, the
+//@ -- compressor or any other client field)
+//@   modifies all(c.reader), all(c.conn), all(*ctx), all(q.Result), gotException.val, all(q.OnLogs), all(q.OnLog)
 //@   ensures err == nil ==> code == 5 [C03] {nil-only-on-end-of-stream}
 //@ callsite (*Client).decodeBlock
 //@   assert code == 1 || code == 7 [C03] {blocks-only-for-data-and-totals-packets}
@@ -271,14 +273,15 @@ package ch
 //@ callsite Bool).Store
 //@   assert code != 1 && code != 7 && code != 5 [C04] {exception-flag-only-on-the-handlePacket-path}
 //@ loop 0 ()
-//@   modifies all(*c), all(*ctx), all(q.Result), gotException.val, all(q.OnLogs), all(q.OnLog)
+//@   modifies all(c.reader), all(c.conn), all(*ctx), all(q.Result), gotException.val, all(q.OnLogs), all(q.OnLog)
 //@   invariant *c != nil && *ctx != nil && c.reader != nil
 
 //@ -- the sending goroutine of Do: the query (with external data and its terminator) is flushed
 //@ -- before input streaming starts, and a successful return leaves nothing pending in the writer
-//@ contract (c *Client) Do$4() (err) props(C02,C09)
+//@ contract (c *Client) Do$4() (err) props(C02,C09,C12)
 //@   requires *c != nil && *ctx != nil
-//@   modifies all(*c), all(*ctx), all(q.Input), all(q.ExternalData), all(*colInfo)
+//@ -- (frame, C12: the sending goroutine writes the writer side only - never the reader)
+//@   modifies all(c.writer), all(c.compressor), all(c.conn), c.blanks, c.mux, all(*ctx), all(q.Input), all(q.ExternalData), all(*colInfo)
 //@   ensures err == nil ==> len(c.writer.vec) == 0 && len(c.writer.buf.Buf) == 0 && c.writer.bufOffset == 0 [C02] {nothing-left-pending-on-success}
 //@ callsite (*Client).sendInput
 //@   assert len(c.writer.vec) == 0 && len(c.writer.buf.Buf) == 0 [C02,C09] {query-flushed-before-input-starts}
